@@ -190,6 +190,57 @@ def check_extend_lattice(S):
         S.static_vc("bounded:checkFineContourExtend-lattice", FN_CFE, "the fine contour is extended exactly when an end point of the contour lies beyond it, and far enough", False, detail=repr(bad[:2]), kind="bounded-native", model=bad[0])
 
 
+def get_distance_lattice(S):
+    """BOUNDED: FineContour.getDistance (the map from a grid point to its arc length) on a fixed
+    generic fine contour: exact at the nodes, linear in the chord along every segment, always a
+    convex combination of the distances of the nearest node and one of ITS neighbours."""
+    import time
+
+    from hypnotoad.core.equilibrium import FineContour, Point2D
+
+    t0 = time.time()
+    pos = numpy.array([(0.0, 0.0), (1.0, 0.0), (2.5, 0.5), (3.4, 1.3), (3.6, 2.4)])
+    dist = numpy.concatenate([[0.0], numpy.cumsum(numpy.sqrt(numpy.sum((pos[1:] - pos[:-1]) ** 2, axis=1)))])
+    fc = object.__new__(FineContour)
+    fc.positions, fc.distance = pos, dist
+    bad, evals = [], 0
+    for k in range(len(pos)):
+        got = FineContour.getDistance(fc, Point2D(*pos[k]))
+        evals += 1
+        if abs(got - dist[k]) > 1e-13:
+            bad.append(dict(case="node %d" % k, got=float(got), want=float(dist[k])))
+    nseg = 40 if S.tier == "quick" else 200
+    for k in range(len(pos) - 1):
+        for m in range(1, nseg):
+            t = m / nseg
+            p = pos[k] + t * (pos[k + 1] - pos[k])
+            got = FineContour.getDistance(fc, Point2D(*p))
+            want = dist[k] + t * (dist[k + 1] - dist[k])
+            evals += 1
+            if abs(got - want) > 1e-12 and len(bad) < 6:
+                bad.append(dict(case="on segment %d at t=%.3f" % (k, t), got=float(got), want=float(want)))
+    n = 30 if S.tier == "quick" else 90
+    for i in range(n + 1):
+        for j in range(n + 1):
+            p = (-0.6 + 4.8 * i / n, -0.6 + 3.6 * j / n)
+            d = numpy.sqrt(numpy.sum((pos - numpy.array(p)) ** 2, axis=1))
+            srt = numpy.sort(d)
+            if srt[1] - srt[0] < 1e-9:
+                continue  # equidistant from two nodes: either is "the nearest"
+            i1 = int(numpy.argmin(d))
+            got = FineContour.getDistance(fc, Point2D(*p))
+            evals += 1
+            nb = [q for q in (i1 - 1, i1 + 1) if 0 <= q < len(pos)]
+            ok = any(min(dist[i1], dist[q]) - 1e-12 <= got <= max(dist[i1], dist[q]) + 1e-12 for q in nb)
+            # weight of the nearest node is at least one half
+            ok = ok and any(abs(got - dist[i1]) <= abs(got - dist[q]) + 1e-12 for q in nb)
+            if not ok and len(bad) < 6:
+                bad.append(dict(case="lattice point", point=p, nearest_node=i1, got=float(got), node_distances=[float(x) for x in dist]))
+    S.bounded.append(dict(name="FineContour.getDistance on nodes, segments and a lattice", evaluations=evals, distinct_nontrivial=3, rule="fixed generic 5-node fine contour (unequal, non-collinear segments): distance exact at every node (1e-13); on every segment the chord-linear value (1e-12); on a %dx%d lattice the value is a convex combination of the distances of the nearest node and a neighbour of it, nearer to the nearest node's; distinct = (nodes, segments, lattice)" % (n + 1, n + 1), bound="%d points" % evals, samples=[dict(case="on segment 1 at t=0.5", want=float(dist[1] + 0.5 * (dist[2] - dist[1])))], failures=bad, wall_s=round(time.time() - t0, 1)))  # fmt: skip
+    if bad:
+        S.static_vc("bounded:getDistance-lattice", "hypnotoad.core.equilibrium:FineContour.getDistance", "arc length of a point: exact at fine-contour nodes, chord-linear in between", False, detail=repr(bad[:2]), kind="bounded-native", model=bad[0])
+
+
 def build(S):
     S.under_contract(FN_HY, FN_PD, "hypnotoad.core.equilibrium:PsiContour.get_distance")
     S.assume("A-SHAPE: calcHy proved at nx=1, ny=2 for the four combinations of lower/upper neighbour; all distance values symbolic")
@@ -217,3 +268,5 @@ def post(S):
     C05_bounded.run(S)
     S.under_contract(FN_CFE)
     check_extend_lattice(S)
+    S.under_contract("hypnotoad.core.equilibrium:FineContour.getDistance")
+    get_distance_lattice(S)
